@@ -119,7 +119,7 @@ func (g *typeGen) leaf() *tv.Desc {
 		if g.v1mode {
 			return &tv.Desc{K: "any"}
 		}
-		return &tv.Desc{K: g.pick("methleaf", []string{"pool:MethStr", "pool:MethSlice"})}
+		return &tv.Desc{K: g.pick("methleaf", []string{"pool:MethStr", "pool:MethSlice", "pool:PlainStr", "pool:PlainStr"})}
 	default:
 		g.nextID++
 		s := &tv.Desc{K: "struct", ID: g.nextID, Fields: []tv.Field{
@@ -477,7 +477,7 @@ func genCase(t *rapid.T) Case {
 		} else {
 			sets = optSets
 		}
-		tr := Trial{Opts: sets[g.intn("optset", len(sets))], Names: g.names(candNames), Dup: rapid.Bool().Draw(t, "dup"), Funcs: g.intn("funcs", 4) == 0}
+		tr := Trial{Opts: sets[g.intn("optset", len(sets))], Names: g.names(candNames), Dup: rapid.Bool().Draw(t, "dup"), Funcs: g.intn("funcs", 4) == 0, FMeth: g.intn("fmeth", 4) == 0}
 		c.Trials = append(c.Trials, tr)
 	}
 	return c
